@@ -405,6 +405,13 @@ def run_check(main):
     except InfraError as ex:
         print('INFRASTRUCTURE-FAILURE: {}'.format(ex))
         sys.exit(2)
+    except SystemExit:
+        raise
+    except BaseException as ex:  # noqa: a crash of the harness is never a verdict
+        import traceback
+        traceback.print_exc()
+        print('INFRASTRUCTURE-FAILURE: {}: {}'.format(type(ex).__name__, ex))
+        sys.exit(2)
 
 
 def setup_repo_path():
